@@ -557,3 +557,9 @@ def r12(ctx, R):
 def r13(ctx, R):
     from . import c04
     c04.r8(ctx, R)
+
+
+@rule('C02', 'C02.R14', 'nothing a sweep uses is frozen at its first value: a sweeper (or the core Sweeper / Level / Step) that computes something once and keeps it does not build it from quantities that change between steps (level dt / time / status, node values) - dt*Q cached on first use keeps the step size of the first step', floor=2)
+def r14(ctx, R):
+    from .. import memo
+    memo.check(ctx, R, lambda m: m.relpath.startswith(('pySDC/implementations/sweeper_classes/', 'pySDC/projects/DAE/sweepers/')) or m.relpath in ('pySDC/core/sweeper.py', 'pySDC/core/level.py', 'pySDC/core/step.py'), 'sweeper classes + core sweeper / level / step')
